@@ -48,7 +48,7 @@ Proof.
   - intros c0 H. exact H.
   - intros a b0 c0 H1 H2 Ha. apply H2. apply H1. exact Ha.
   - intros e c0 m c' acks _ Hvb Hx Ha.
-    destruct m as [am|dm|pm|f t amt|f t amt et|g r u ex|g r u];
+    destruct m as [am|dm|pm|f t amt|f t amt et|g r u ex|g r u|f amt outs];
       try (rewrite (exec_base_pnft_frame e c0 _ c' acks Hx); [exact Ha | intros pm0; discriminate]).
     cbn [vb_base exec_base] in Hvb, Hx. exact (exec_pnft_stored e c0 pm c' acks Hvb Hx Ha).
   - intros e c0 t c' _ Hx Ha. rewrite (ante_pnft_frame e c0 t c' Hx). exact Ha.
